@@ -118,10 +118,8 @@ theorem findSelection_leaves (o : String) (tail : List Sel) : ∀ (rest : List M
   | f :: rest, h => by
     simp only [mnames, List.map_cons, List.mem_cons, not_or] at h
     have hne : (f.1 == o) = false := by simpa using fun e => h.1 e.symm
-    rw [mleaves_cons, List.cons_append, findSelection]
-    have : findSelectionSel o (Flat.leaf f.1 f.2.1) = none := by
-      simp [Flat.leaf, findSelectionSel, hne, findSelection]
-    rw [this]
+    rw [mleaves_cons, List.cons_append, Flat.leaf,
+      findSelection_skip_leaf f.1 f.1 [] [] f.2.1 [] _ o (by simpa using hne)]
     exact findSelection_leaves o tail rest (by simpa [mnames] using h.2)
 
 theorem owned_names_sub (ms : List MSpec) (u n : String) (hn : n ∈ mnames (owned ms u)) : n ∈ mnames ms := by
@@ -134,7 +132,8 @@ theorem findIP_o (h : Fam c ms A B T o fs) (i : String) (ra X : List (String × 
   have hfs : findSelection o (rootSels ms A T o fs A) = some (Flat.Qown T o fs) := by
     unfold rootSels
     rw [findSelection_leaves o _ _ (fun hm => o_not_in_ms h (owned_names_sub ms A o hm))]
-    simp [findSelection, findSelectionSel, Flat.Qown]
+    simp only [beq_self_eq_true, ↓reduceIte, Flat.Qown]
+    exact findSelection_head o o [] [] _ [] _ [] o (by simp)
   unfold findIP
   rw [hfs, lookup_append_not_mem o _ ra hra]
   simp [selType, Flat.Qown, TypeRef.isList, extractID, hid, bind, Except.bind, fmtID, Flat.pointQ]
@@ -303,17 +302,17 @@ theorem parseOne_lookup (h : Fam c ms A B T o fs) (bs : List Flat.FieldSpec) (p 
   · exact Flat.parseOne_child h.toFamT bs p b
 
 theorem mergeResult_lookup (o i : String) (res X b : List (String × J))
-    (ho1 : '#' ∉ o.toList) (ho2 : ':' ∉ o.toList) (hone : o.toList ≠ []) (hi : '#' ∉ i.toList)
+    (ho1 : '#' ∉ o.toList) (ho2 : ':' ∉ o.toList) (hone : o.toList ≠ [])
     (hX : J.lookup o res = some (.obj X)) :
     mergeResult res [Flat.pointQ o i] b = .ok (J.setKey o (.obj (mergeInto X b)) res) := by
   unfold mergeResult
   rw [updateAt]
-  simp only [Flat.extract_pointQ o i ho1 ho2 hi, bind, Except.bind, Flat.isListElement_pointQ o i ho2 hone ho1,
+  simp only [Flat.extract_pointQ o i ho1 ho2, bind, Except.bind, Flat.isListElement_pointQ o i ho2 hone ho1,
     Bool.false_eq_true, ↓reduceIte, hX, updateAt]
 
 /-- **Depth 1**: one call to `B` with the single lookup request, `$id` bound to the id found under `o` -/
 theorem depth1 (h : Fam c ms A B T o fs) (down : Downstream) (i : String) (res : List (String × J)) (calls : List Call)
-    (ho1 : '#' ∉ o.toList) (ho2 : ':' ∉ o.toList) (hone : o.toList ≠ []) (hi : '#' ∉ i.toList) (hine : i ≠ "")
+    (ho1 : '#' ∉ o.toList) (ho2 : ':' ∉ o.toList) (hone : o.toList ≠ []) (hine : i ≠ "")
     (nb : J) (hdown : down B [lookupReq c B T o fs i] = .ok [[("node", nb)]]) (hnb : nb = .null ∨ ∃ b, nb = .obj b)
     (hobj : HasObj o res) :
     ∃ res', execDepth c {} none down [⟨Flat.stepB B T o (Flat.fsB fs), [Flat.pointQ o i]⟩] ⟨res, calls⟩
@@ -324,11 +323,11 @@ theorem depth1 (h : Fam c ms A B T o fs) (down : Downstream) (i : String) (res :
   refine ⟨J.setKey o (.obj (mergeInto X (nodeObj nb))) res, ?_⟩
   unfold execDepth
   simp only [partitionByURL, List.foldl_cons, List.foldl_nil, List.find?_nil, List.nil_append, hurl,
-    List.foldlM_cons, List.foldlM_nil, bind, Except.bind, Flat.buildBatch_child h.toFamT _ i ho1 ho2 hi hine, hdown',
+    List.foldlM_cons, List.foldlM_nil, bind, Except.bind, Flat.buildBatch_child h.toFamT _ i ho1 ho2 hine, hdown',
     List.length_cons, List.length_nil, bne_self_eq_false, Bool.false_eq_true, ↓reduceIte, List.zip_cons_cons,
     List.zip_nil_right, List.getElem?_cons_zero, Option.getD_some,
     parseOne_lookup h _ (Flat.pointQ o i) nb hnb,
-    mergeResult_lookup o i res X _ ho1 ho2 hone hi hX, pure, Except.pure, List.append_nil, lookupReq]
+    mergeResult_lookup o i res X _ ho1 ho2 hone hX, pure, Except.pure, List.append_nil, lookupReq]
 
 /-! ## the loop -/
 
@@ -370,7 +369,7 @@ def rootCalls (c : PCtx) (ms : List MSpec) (A B T o : String) (fs : List Flat.Fi
 
 /-- **Stage 3 — execute** -/
 theorem stage_execute (h : Fam c ms A B T o fs) (down : Downstream) (i : String)
-    (ho1 : '#' ∉ o.toList) (ho2 : ':' ∉ o.toList) (hone : o.toList ≠ []) (hi : '#' ∉ i.toList) (hine : i ≠ "")
+    (ho1 : '#' ∉ o.toList) (ho2 : ':' ∉ o.toList) (hone : o.toList ≠ []) (hine : i ≠ "")
     (hg : Good c ms A B T o fs down i) :
     ∃ res, execute c {} none down (planOf c ms A B T o fs) []
       = .ok ⟨res, rootCalls c ms A B T o fs ++ followUps c B T o fs i⟩ := by
@@ -397,7 +396,7 @@ theorem stage_execute (h : Fam c ms A B T o fs) (down : Downstream) (i : String)
     obtain ⟨n, hn⟩ : ∃ n, stepsDepth (planOf c ms A B T o fs) = n + 2 := ⟨_, (Nat.sub_add_cancel (hge2 hB)).symm⟩
     obtain ⟨nb, hdown, hnb⟩ := hg.hlook hB
     obtain ⟨res1, hd1⟩ := depth1 h down i res0 ((urlsOf c ms A T o fs).map (rootCall c ms A B T o fs))
-      ho1 ho2 hone hi hine nb hdown hnb hobj
+      ho1 ho2 hone hine nb hdown hnb hobj
     rw [hfb] at hd0 hd1
     rw [hn, execLoop]
     simp only [hemp, Bool.false_eq_true, ↓reduceIte, bind, Except.bind, hd0, Flat.stepsB_eq, List.map_cons,
@@ -408,13 +407,13 @@ theorem stage_execute (h : Fam c ms A B T o fs) (down : Downstream) (i : String)
 
 /-- **Stage 4 — the pipeline** -/
 theorem stage_gateway (h : Fam c ms A B T o fs) (down : Downstream) (i : String)
-    (ho1 : '#' ∉ o.toList) (ho2 : ':' ∉ o.toList) (hone : o ≠ "") (hi : '#' ∉ i.toList) (hine : i ≠ "")
+    (ho1 : '#' ∉ o.toList) (ho2 : ':' ∉ o.toList) (hone : o ≠ "") (hine : i ≠ "")
     (hg : Good c ms A B T o fs down i) :
     ∃ d, gateway c {} (op c ms T o fs) none down
       = .ok ⟨some d, [], rootCalls c ms A B T o fs ++ followUps c B T o fs i⟩ := by
   have hone' : o.toList ≠ [] := by
     intro hnil; apply hone; rw [← String.ofList_toList (s := o), hnil]
-  obtain ⟨res, hex⟩ := stage_execute h down i ho1 ho2 hone' hi hine hg
+  obtain ⟨res, hex⟩ := stage_execute h down i ho1 ho2 hone' hine hg
   refine ⟨ScrubClean.cleanAll [([o], [(T, ["id"])])] res, ?_⟩
   unfold gateway
   simp only [stage_plan h, hex]
